@@ -270,6 +270,20 @@ def progress_flag(repo: Repo) -> RuleRun:
                 shrinks = any(isinstance(s, ast.Expr) and isinstance(s.value, ast.Call) and isinstance(s.value.func, ast.Attribute) and s.value.func.attr in ("remove", "discard", "pop") and attr_chain(s.value.func.value) == worklist for s in sibs)
                 r.check(shrinks, fn, f"'{flag} = True' together with a shrinking worklist", f"'{flag} = True' is set without removing anything from {worklist}: progress is claimed but the measure does not decrease", n, key="flag=True")
             else:
+                # a call result must be accumulated into the flag, never overwrite it: a later block
+                # without progress would otherwise erase the progress of an earlier one in the same round
+                accumulates = (isinstance(v, ast.BoolOp) and isinstance(v.op, ast.Or) and any(isinstance(x, ast.Name) and x.id == flag for x in v.values)) or (
+                    isinstance(parent(n), ast.If)
+                )
+                r.check(
+                    accumulates,
+                    fn,
+                    f"'{ast.unparse(n)}' accumulates progress",
+                    f"'{ast.unparse(n)}' overwrites the progress flag with the result for the current block: progress made by a block visited earlier in the same "
+                    "round is forgotten, the loop gives up although another round would succeed - the outcome depends on the insertion order",
+                    n,
+                    key="flag-accumulates",
+                )
                 env = Reach(repo, fn)
                 g = CFG(fn.node)
                 callee_ok = True
@@ -346,4 +360,16 @@ def neighbour_symmetry(repo: Repo) -> RuleRun:
 
 neighbour_symmetry.rule_id = "C02.NEIGHBOUR-SYMMETRY"
 
-RULES = [set_order, progress_flag, undefined_raises, det_sources, neighbour_symmetry]
+def grade_before_write(repo: Repo) -> RuleRun:
+    """'never writes a partial dictionary': grading (which raises for undefined families) precedes every
+    open-for-write - the same rule as C01.GRADE-BEFORE-WRITE."""
+    res = c01.grade_before_write(repo)
+    res.prop, res.rule = PROP, "C02.GRADE-BEFORE-WRITE"
+    for f in res.findings:
+        f.property, f.rule = PROP, "C02.GRADE-BEFORE-WRITE"
+    return res
+
+
+grade_before_write.rule_id = "C02.GRADE-BEFORE-WRITE"
+
+RULES = [set_order, progress_flag, undefined_raises, grade_before_write, det_sources, neighbour_symmetry]
